@@ -66,6 +66,13 @@ CHECKS.update({
    note="decorator.Load (go/packages) is not exercised; packages are hand-built with the fields Load fills", ref="DESIGN.md §4 C20"),
 })
 
+
+CHECKS.update({
+ "C16": dict(level="model_checking", tech="stateless model checking under a controlled scheduler (preemption-bounded, all interleavings at hooked operations) with a vector-clock happens-before race detector; explorer-controlled map iteration orders; free-running go -race pass as supplement",
+   text="On sources instrumented at check time, 2 (quick) / 3 (thorough) goroutines decorating and restoring different files while sharing one goast resolver (4 sharing scenarios) are run through every interleaving with <=2 (3) preemptions: no unordered conflicting access, no deadlock, no panic, results equal the sequential ones; 8 sequential scenarios are run under every single (pair of) non-default map iteration order with identical output; the same bodies run free under the Go race detector.",
+   note="scheduling points are the hooked operations only (sync primitives, package-level variables, resolver state); reads of locations never written are not scheduling points (discovery pass, re-checked at run time); other memory is covered by the -race pass only", ref="DESIGN.md §3.3, §4 C16"),
+})
+
 NA_REASON = "check not built yet in this session (planned, see DESIGN.md)"
 def main():
     checks = []
@@ -88,7 +95,7 @@ def main():
         "setup_cmd": "./setup.sh",
         "hooks": {
             "guard": "verif",
-            "enable": "no hooks are committed to /repo: checks that need scheduling/map-order/fault hooks instrument the current /repo sources at check time and inject them with go build -overlay",
+            "enable": "no hooks are committed to /repo: C16 instruments the current /repo sources at check time (/verif/instr: sync->vsched shim, vsched.Touch before shared accesses, range-over-map -> vsched.MapKeys) and injects them, together with the virtual package github.com/dave/dst/vsched, with go build -tags verifsched -overlay; all other checks drive the unmodified sources",
             "baseline_off_cmd": "cd /repo && GOFLAGS=-mod=mod GOPROXY=off GOSUMDB=off GOTOOLCHAIN=local go test -vet=off -count=1 ./...",
             "source_commits": [],
             "add_only": True,
